@@ -192,6 +192,22 @@ fn one_game(ctx: &mut Ctx, idx: u64, rng: &mut Rng, desc: &str, tree: &HNode, np
         if (k == 0 || k == 2) && rng.chance(0.5) && !history(ctx, idx, rng, desc, tree, &flat, &game, &prof) {
             return;
         }
+        // the same profile imported from a listing whose infosets are split over several entries
+        if k == 3 || (k == 0 && rng.chance(0.3)) {
+            let [one, two] = crate::tree::profile_to_named(&flat, &prof);
+            let (s1, s2) = (crate::tree::split_named(rng, one), crate::tree::split_named(rng, two));
+            if let Ok(strat) = game.from_named([s1, s2]) {
+                ctx.count("profiles-imported-from-split-listings", 1);
+                match compare_strat(ctx, tree, &flat, &strat, &prof) {
+                    Err((sig, msg)) => {
+                        ctx.violation(idx, &format!("C01:split-listing:{}", sig), &format!("profile imported from a listing with split infosets: {} ({})", msg, desc), json!({"game": tree.to_json(), "profile": prof, "desc": desc}));
+                        return;
+                    }
+                    Ok(true) => ctx.ok(mix(mix(tree.structural_hash() ^ profile_hash(&prof)) ^ 0x5917), flat.num_decision_infosets() >= 1),
+                    Ok(false) => {}
+                }
+            }
+        }
         if k == 0 {
             ctx.sample(3, || json!({"desc": desc, "game": tree.brief(300), "profile_kind": kname, "nodes": flat.nodes.len()}));
         }
